@@ -158,6 +158,12 @@ func fetchPkgEnums(pa *packages.Package) enumsMap {
 		if !isNamed {
 			continue
 		}
+		// an enum is defined by the constants of its own package:
+		// a constant of a type coming from another package (const Start = time.March)
+		// does not make this type an enum, nor adds a member to it
+		if named.Obj().Pkg() != pa.Types {
+			continue
+		}
 		// per the spec, only basic types may be constant
 
 		comment := fetchConstComment(pa, decl)
